@@ -66,7 +66,10 @@ def main():
     if raw:
         names = set()
         for f in glob.glob(os.path.join(HERE, 'src', '*.rs')):
-            names |= set(re.findall(r'\bc17_\w+', open(f).read()))
+            txt = open(f).read()
+            names |= set(re.findall(r'\bc17_\w+', txt))
+            macros = set(re.findall(r'macro_rules!\s+(\w+)', txt)) | set(re.findall(r'\b(c17_\w+)!', txt))
+            names -= macros
         sel = [dict(harness=n) for n in sorted(names) if any(re.search(p, n) for p in pats)]
     elif pats:
         sel = [s for s in specs if any(re.search(p, s['harness']) for p in pats)]
